@@ -23,10 +23,10 @@ func init() {
 		Rule: "seeded federation runs: first assertion with 0-3 AudienceRestrictions x 0-3 audiences drawn from {this SP, other SP, case / trailing-slash / whitespace near misses, empty}, configured audience URI from {SP URI, empty, other}, " +
 			"OneTimeUse and ProxyRestriction (Count, 0-3 audiences) present/absent, later assertions with unrelated conditions; transport perturbations (duplicate, recompress, delay inside window) must not change the warnings; " +
 			"oracle: reference model of NotInAudience / OneTimeUse / ProxyRestriction; distinct = shape hash (restriction pattern, configured URI kind, OTU, proxy, n, placement, perturbation, outcome)",
-		Directed:   c06Directed,
-		Run:        c06Run,
-		MustHit:    []string{"restrictions=0", "restrictions>=2", "empty_restriction", "near_miss", "match_then_miss", "miss_then_match", "otu", "proxy", "configured_empty", "forwarded_other_sp", "duplicate", "recompress", "clock_before_not_before", "clock_after_conditions_end"},
-		RandomRuns: map[string]int{"quick": 1500, "thorough": 80000},
+		Directed:    c06Directed,
+		Run:         c06Run,
+		MustHit:     []string{"restrictions=0", "restrictions>=2", "empty_restriction", "near_miss", "match_then_miss", "miss_then_match", "otu", "proxy", "configured_empty", "forwarded_other_sp", "duplicate", "recompress", "clock_before_not_before", "clock_after_conditions_end"},
+		RandomRuns:  map[string]int{"quick": 1500, "thorough": 80000},
 		Assumptions: []string{"comparison of audience values is byte-exact, as the property states"},
 	})
 }
